@@ -664,3 +664,26 @@ def leafQuery (F : Flags) (M : Matcher) (st : State) (m : Metric) (keys : List B
         else .ok { series := sel, groups := some (groupBy F st m keys sel) }
 
 end LinVerif.TagFilter
+
+namespace LinVerif.TagFilter
+
+/-! ### histories: writes with flush / compaction steps placed anywhere between them -/
+
+inductive Op
+  | write (m : Metric) (tags : Tags)
+  | place (s : Step)
+  deriving DecidableEq, Repr
+
+def applyOp (F : Flags) (st : State) : Op → State
+  | .write m tags => (write st m tags).1
+  | .place s => st.step F s
+
+def run (F : Flags) (ops : List Op) (st : State) : State := ops.foldl (applyOp F) st
+
+/-- the writes of a history, in order -/
+def writesOf : List Op → List (Metric × Tags)
+  | [] => []
+  | .write m t :: r => (m, t) :: writesOf r
+  | .place _ :: r => writesOf r
+
+end LinVerif.TagFilter
